@@ -472,9 +472,15 @@ func c36GenQuery(rng *rand.Rand, l *c36Layout) *c36Query {
 		q.TsMin, q.TsMax = &a, &b
 		q.TsForm = []string{"gele", "between"}[rng.Intn(2)]
 	}
-	if q.TsForm != "" && rng.Intn(3) == 0 {
+	if q.TsForm != "" && rng.Intn(2) == 0 {
 		// a narrow window right at one segment's min/max timestamp: where wrong statistics would bite
 		sg := l.Segs[rng.Intn(len(l.Segs))]
+		if q.Part != nil {
+			q.Part = c36Ptr32(sg.Part)
+		}
+		if rng.Intn(2) == 0 {
+			q.OffMin, q.OffMax = nil, nil
+		}
 		edge := sg.MaxTS
 		if rng.Intn(2) == 0 {
 			edge = sg.MinTS
